@@ -459,3 +459,6 @@ func C09_Genesis() { focus = "C09"; sceneGenesis(gnQuick) }
 func C13_Refund()        { focus = "C13"; sceneBindingMsg(opRefund, bmPlain) }
 func C13_Disable()       { focus = "C13"; sceneBindingMsg(opDisable, bmPlain) }
 func C13_UpdateBinding() { focus = "C13"; sceneBindingMsg(opUpdBinding, bmPlain) }
+
+// C19: "can be written as JSON and read back": the enum fields of a context through the application's codec
+func C19_EnumProtoJSON() { focus = "C19"; sceneEnumProtoJSON() }
